@@ -153,6 +153,80 @@ def _mutable_literal(v):
     return isinstance(v, ast.Call) and isinstance(v.func, ast.Name) and v.func.id in ("list", "dict", "set", "defaultdict", "deque", "OrderedDict")
 
 
+# (file, name) -> reason.  A module-level table that is provably not per-file / per-run state (e.g. a memo of a pure function keyed by ALL of
+# its arguments) may be listed here with its reason; the list is empty on the delivered tree and is part of the reported assumptions.
+ALLOW_MODULE_STATE: dict = {}
+
+
+def _module_state_obligations(tree, rel):
+    """A module-level name bound to a mutable container (or rebound through `global`) and mutated from inside a function is one object for
+    every worker thread and every run in the process.  One obligation per module-level mutable container."""
+    glob = {}
+    for b in tree.body:
+        if isinstance(b, ast.Assign) and (_mutable_literal(b.value) or isinstance(b.value, (ast.ListComp, ast.DictComp, ast.SetComp))):
+            for t in b.targets:
+                if isinstance(t, ast.Name):
+                    glob[t.id] = b.lineno
+        elif isinstance(b, ast.AnnAssign) and b.value is not None and isinstance(b.target, ast.Name) \
+                and (_mutable_literal(b.value) or isinstance(b.value, (ast.ListComp, ast.DictComp, ast.SetComp))):
+            glob[b.target.id] = b.lineno
+    mutated = {}
+    for f in [n for n in ast.walk(tree) if isinstance(n, (ast.FunctionDef, ast.AsyncFunctionDef))]:
+        local = {a.arg for a in f.args.posonlyargs + f.args.args + f.args.kwonlyargs}
+        if f.args.vararg:
+            local.add(f.args.vararg.arg)
+        if f.args.kwarg:
+            local.add(f.args.kwarg.arg)
+        declared = set()
+        for n in ast.walk(f):
+            if isinstance(n, ast.Global):
+                declared.update(n.names)
+        for n in ast.walk(f):
+            if isinstance(n, (ast.Assign, ast.AnnAssign, ast.AugAssign, ast.For, ast.NamedExpr)):
+                tg = n.targets if isinstance(n, ast.Assign) else [n.target]
+                for t in tg:
+                    for x in ast.walk(t):
+                        if isinstance(x, ast.Name) and isinstance(x.ctx, ast.Store):
+                            if x.id in declared:
+                                mutated.setdefault(x.id, (n.lineno, f.name))   # re-binding a module-level name from a function
+                                glob.setdefault(x.id, n.lineno)
+                            else:
+                                local.add(x.id)
+            elif isinstance(n, (ast.With, ast.AsyncWith)):
+                for it in n.items:
+                    if it.optional_vars is not None:
+                        for x in ast.walk(it.optional_vars):
+                            if isinstance(x, ast.Name):
+                                local.add(x.id)
+        for n in ast.walk(f):
+            nm = None
+            if isinstance(n, (ast.Assign, ast.AugAssign, ast.AnnAssign)):
+                for t in (n.targets if isinstance(n, ast.Assign) else [n.target]):
+                    if isinstance(t, ast.Subscript) and isinstance(t.value, ast.Name):
+                        nm = t.value.id
+            elif isinstance(n, ast.Delete):
+                for t in n.targets:
+                    if isinstance(t, ast.Subscript) and isinstance(t.value, ast.Name):
+                        nm = t.value.id
+            elif isinstance(n, ast.Call) and isinstance(n.func, ast.Attribute) and n.func.attr in MUTATORS | {"popitem", "__setitem__"} \
+                    and isinstance(n.func.value, ast.Name):
+                nm = n.func.value.id
+            if nm in glob and nm not in local:
+                mutated.setdefault(nm, (n.lineno, f.name))
+    out = []
+    for a, line in sorted(glob.items()):
+        ok = a not in mutated or (rel, a) in ALLOW_MODULE_STATE
+        why = (f"module-level `{a}` is never mutated from a function" if a not in mutated else
+               f"module-level `{a}` is on the allow-list: {ALLOW_MODULE_STATE[(rel, a)]}" if ok else
+               f"module-level `{a}` (line {line}) is one object for the whole process and is mutated in `{mutated[a][1]}` at line {mutated[a][0]}: "
+               "state leaks between files processed concurrently and between runs")
+        out.append({"id": f"S/shared-state {rel} [module.{a}]", "func": "<module>", "kind": "shared-state", "label": None,
+                    "status": "discharged" if ok else "refuted", "backend": "syntactic scan (ast)", "secs": 0.0,
+                    "reason": "" if ok else why, "model": None, "path_notes": [why], "goal_size": 0, "replay": None,
+                    "clause": "mutable per-file / per-run state lives in an instance, not in a module-level object"})
+    return out
+
+
 def shared_state_obligations(src_root):
     """Per-file and per-run state must live in instances: a class attribute initialised to a mutable value and then mutated through `self`
     (without `__init__` re-binding it) is ONE object shared by every instance - by every file processed by a worker thread (C11) and by
@@ -171,6 +245,7 @@ def shared_state_obligations(src_root):
                     tree = ast.parse(open(path, encoding="utf-8").read())
                 except SyntaxError:
                     continue
+                out.extend(_module_state_obligations(tree, rel))
                 for cls in [n for n in ast.walk(tree) if isinstance(n, ast.ClassDef)]:
                     attrs = {}
                     for b in cls.body:
